@@ -104,7 +104,7 @@ def gen_case(rng, tag):
         slack = {'tight': rng.choice([4, 5, 6]), 'loose': rng.randrange(6, 60),
                  'sparse': rng.randrange(60, 3000)}[slack_kind]
         if t is None:
-            start = (W + rng.choice([0, 1, 2, 30, 900, 107000])) * CW
+            start = (W + rng.choice([0, 1, 2, 30, 900, 107000, 108000, 220000, 2500000])) * CW
         else:
             start = t + (W + slack) * CW
         start = int(start) + 1
